@@ -462,7 +462,7 @@ class GridBlueprint(yamlize.Object):
         locators = []
         for (i, j), spec in self.gridContents.items():
             locator = spatialGrid[i, j, 0]
-            if spec in latticeIDs:
+            if str(spec) in latticeIDs:
                 locators.append(locator)
         return locators
 
